@@ -30,6 +30,11 @@ ARRAY_VALUES = {
     "ideal_from_angle_grid": {"frac": [[0.3, 1.1], [2.0, -0.7]], "int": [[0, 1], [2, 3]]},
     "ideal_from_angle_vector": {"frac": [0.3, 1.1, 2.0], "int": [0, 1, 2]},
     "point_from_parts": {"frac": [1.5, 0.5, 1.0], "int": [3, 2, 2]},
+    "point_poincare": {"frac": [0.25, -0.5], "int": [0, 0]},
+    "point_halfspace": {"frac": [0.5, 1.5], "int": [1, 2]},
+    "point_hyperboloid": {"frac": [1.25, 0.75, 0.0], "int": [3, 2, 2]},
+    "points_halfspace": {"frac": [[0.5, 1.5], [-1.0, 0.25]], "int": [[1, 2], [0, 3]]},
+    "points_poincare": {"frac": [[0.25, -0.5], [0.0, 0.5]], "int": [[0, 0], [0, 0]]},
     "transformation_from_parts": {"frac": [[2, 0.5, 0], [0, 1, 0], [0, 0, 1]], "int": [[2, 1, 0], [0, 1, 0], [0, 0, 1]]},
     "polygon_from_parts": {"frac": [[1.0, 0.5, 0.0], [1.0, 0.0, 0.5], [1.0, -0.5, -0.25]], "int": [[2, 1, 0], [2, 0, 1], [3, -1, -1]]},
 }
@@ -96,6 +101,11 @@ def call(entry, x):
     if entry == "point_klein":
         p = H.Point(x, model="klein")
         return [p.proj_data, p.coords("hyperboloid"), p.coords("poincare"), p.distance(H.Point.get_origin(2))]
+    if entry in ("point_poincare", "point_halfspace", "point_hyperboloid", "points_halfspace", "points_poincare"):
+        model = entry.split("_")[1]
+        p = H.Point(x, model=model)
+        o = H.Point.get_origin(2)
+        return [p.coords("klein"), p.coords("hyperboloid"), p.coords("poincare"), p.coords("halfspace"), p.distance(o)]
     if entry == "point_projective":
         p = H.Point(x)
         return [p.coords("klein"), p.coords("hyperboloid"), p.coords("halfspace"), p.origin_to().matrix]
